@@ -62,6 +62,8 @@ var c15Bodies = []struct{ name, text string }{
 	{"form malformed escape", `f=%zz`},
 	{"form semicolon", `f=1;x=2`},
 	{"form single list", `l=only&x=form-x`},
+	{"json long, syntax error early", `{"j":"json-j" "x":"` + strings.Repeat("y", 700) + `"}`},
+	{"json long valid object", `{"j":"json-j","x":"` + strings.Repeat("y", 700) + `","pad":"` + strings.Repeat("p", 900) + `"}`},
 }
 
 var c15Queries = []struct{ name, raw string }{
